@@ -16,6 +16,7 @@ func init() {
 			"(C01-role) endpoint roles: rule.From meets the source, rule.To the destination, ports are resolved on the destination, policies are asked about the destination for ingress and the source for egress; " +
 			"(C01-pure) no function on a query path writes long-lived state outside a reviewed table (no unreviewed memoisation). " +
 			"(C01-exists) a function that walks a list of rule peers gives no negative answer inside the loop: a non-selecting entry is skipped, `false` comes only after the list is exhausted (anchored by the type ranged over). " +
+			"(C01-shortcut) with --exposure the per-direction evaluation may answer from a policy's stored cluster-wide connections only when the other end - the source on ingress, the destination on egress - is a pod (the rule of C06-b, which is as much a condition of the connectivity section of `list --exposure`). " +
 			"NOT decided: that selector matching, port arithmetic, CIDR subtraction and the library's partition are correct; the iff itself; per-address exactness."
 		rules.FieldCoverage(p, r, "C01-a", "list", rules.ListEntries(p), append([]string{}, rules.FieldsNetpol...), "the NetworkPolicy semantics depends on it")
 		rules.DirectionCombination(p, r, "C01-b")
@@ -29,6 +30,7 @@ func init() {
 		rules.ContainerPortProtocolDefault(p, r, "C01-proto")
 		rules.LabelMatchingByLibrary(p, r, "C01-match")
 		rules.SomePeerSelects(p, r, "C01-exists")
+		rules.ExposureShortcut(p, r, "C01-shortcut")
 		r.Floor("C01-a", 20)
 		r.Assume("relevant-field table written from the property statement (NetworkPolicySpec/Rule/Peer/IPBlock/Port, ContainerPort, ObjectMeta)")
 		r.Assume("endpoint roles are seeded at CheckIfAllowed and AllAllowedConnectionsBetweenWorkloadPeers: first peer parameter = source, second = destination")
